@@ -139,5 +139,9 @@ def run(ctx: Ctx) -> None:
     body = [norm(s) for s in rsd.body]
     ctx.check("C15.R6", "utils:raise_shutdown", "await trigger(); raise ShutdownError()", body == ["await shutdown_event()", "raise ShutdownError()"], f"raise_shutdown body: {body}", rsd)
 
+    from ..core import Alias
+    from . import c16
+
+    c16.run(Alias(ctx, "C15.R7", "both workers realise the same idle-timer skeleton: on `terminated` the timer closes the connection at once (C16.R2 on _idle_timeout/_initiate_server_close; C16.R1 on WorkerContext)", only={"C16.R1", "C16.R2"}, where=["_idle_timeout", "_initiate_server_close", "WorkerContext"]))
     ctx.assume("not decided: wall-clock bounds, what clients observe, cancellation semantics of asyncio.wait_for / trio deadlines")
     ctx.assume("runtime fact used by C15.R1: asyncio.Server.wait_closed() waits for active connections on CPython >= 3.12 (confirmed by triage/asyncio_shutdown_unbounded.py)")
